@@ -23,7 +23,7 @@ LEVEL_TEXT = ("Random points of the quantified parameter box (N 1-60, theta_s (0
 LEVEL_NOTE = "Tolerances 1e-9*h on depth identities; N = 1 has no level pair: index validity is required only where the weight is non-zero. Trusts icontract (evaluation counts reported; zero => inconclusive)."
 RULE = ("case = chunk of random parameter points; every point calls s_stretch (rho,w), sdepth (rho,w) and z2s for ~40 depths per column; some chunks build a real "
         "ROMS.Grid from a generated file and from Vinfo. Non-trivial point: N >= 2 and stretched (theta_s > 0.5); distinct by rounded parameters.")
-MANDATORY = ["vinfo_with_hc_zero_on_a_file_with_hc", "vinfo_with_another_hc_than_the_file", "z2s_result_kept_over_a_second_lookup", "grid_file_with_Tcline", "bathymetry_not_c_contiguous", "z2s_calls_over_many_cells", "post_s_stretch", "post_sdepth", "post_z2s", "vtransform1", "vtransform2", "vstretching1", "vstretching2", "vstretching4",
+MANDATORY = ["bathymetry_as_integer_array", "vinfo_theta_b_exactly_zero_vstretching_1", "vinfo_with_hc_zero_on_a_file_with_hc", "vinfo_with_another_hc_than_the_file", "z2s_result_kept_over_a_second_lookup", "grid_file_with_Tcline", "bathymetry_not_c_contiguous", "z2s_calls_over_many_cells", "post_s_stretch", "post_sdepth", "post_z2s", "vtransform1", "vtransform2", "vstretching1", "vstretching2", "vstretching4",
              "depth_above_surface", "depth_below_bottom", "depth_on_level", "grid_from_file", "grid_from_vinfo", "N1", "vinfo_dictionary_reused", "grid_file_without_Vtransform", "grid_file_with_Vstretching"]
 ASSUMPTIONS = ["zeta = 0 (ladim ignores sea-surface elevation)", "Vtransform 1 only with hc <= min(h), as the property quantifies"]
 TIMEOUT = {"quick": 600, "thorough": 3000}
@@ -184,6 +184,11 @@ def run_case(case: dict[str, Any], wd: Path) -> dict[str, Any]:
                 # the same bathymetry in another memory layout (Fortran order / a transposed view)
                 hin = np.asfortranarray(h) if rng.random() < 0.5 else np.ascontiguousarray(h.T).T
                 bump("bathymetry_not_c_contiguous")
+            if rng.random() < 0.2 and float(np.min(h)) >= 2.0 and (p["Vtransform"] == 2 or hc <= np.floor(np.min(h))):
+                # bathymetry given in whole metres as an integer array (a legal data type for h): the levels are still real numbers
+                h = np.floor(h)
+                hin = h.astype(np.int32 if rng.random() < 0.5 else np.int64)
+                bump("bathymetry_as_integer_array")
             zr = guarded("sdepth(rho)", p, R.sdepth, hin, hc, Cr, stagger="rho", Vtransform=p["Vtransform"])
             zw = guarded("sdepth(w)", p, R.sdepth, hin, hc, Cw, stagger="w", Vtransform=p["Vtransform"])
             if zr is None or zw is None:
@@ -227,6 +232,9 @@ def run_case(case: dict[str, Any], wd: Path) -> dict[str, Any]:
     else:
         p = _params(rng)
         p["N"] = max(2, p["N"] % 25)
+        if case["idx"] % 8 == 5:
+            p["Vstretching"], p["theta_b"] = 1, 0.0  # theta_b exactly 0 is inside Vstretching 1's range
+            bump("vinfo_theta_b_exactly_zero_vstretching_1")
         if case["idx"] % 4 == 0:
             p["Vtransform"] = 1  # these cases write a file without the Vtransform variable
         hmin, hmax = 5.0, float(rng.choice([50.0, 800.0, 4000.0]))
